@@ -349,8 +349,15 @@ func runRedef(c *Ctx) {
 			suppliedKinds := map[string]bool{}
 			if ib := p.MustRole("inputBuilder"); ib != nil {
 				for _, ci := range p.RegionCalls(ib, core.GAddOverwrite) {
-					if _, nn := core.StructOf(core.Strip(ci.Common().Args[1]).Type()); nn != nil {
+					if st, nn := core.StructOf(core.Strip(ci.Common().Args[1]).Type()); st != nil && nn != nil {
 						suppliedKinds[core.TypeStr(nn)] = true
+						continue
+					}
+					// registered through a parameter of a helper / local literal: the kinds its call sites hand in
+					for _, kn := range p.KindOf(ci.Common().Args[1]) {
+						if kn != "?" {
+							suppliedKinds[kn] = true
+						}
 					}
 				}
 			}
